@@ -24,6 +24,8 @@ type NamedOut struct {
 
 // CleanCase is a project tree plus a spokfile declaring outputs.
 type CleanCase struct {
+	// ProjDir names the directory holding the spokfile ("" = proj)
+	ProjDir   string     `json:"proj_dir,omitempty"`
 	Tree      []string   `json:"tree"` // relative to the project; trailing '/' = directory
 	Literal   []string   `json:"literal"`
 	Named     []NamedOut `json:"named"`
@@ -49,6 +51,12 @@ var cleanNamedPool = []NamedOut{
 var cleanGlobPool = []string{"build/*.o", "**/*.tmp", "none/*.zzz", "dist/**/*.js", "*.tmp", "s*", "*", "b*/*"}
 
 func genClean(t *rapid.T) CleanCase {
+	c := genCleanBody(t)
+	c.ProjDir = genProjDir(t)
+	return c
+}
+
+func genCleanBody(t *rapid.T) CleanCase {
 	c := CleanCase{}
 	for _, p := range cleanTreePool {
 		if rapid.IntRange(0, 3).Draw(t, "tree_"+p) != 0 {
@@ -127,7 +135,7 @@ func (c CleanCase) source() string {
 }
 
 func execClean(s *ev.Shard, b *sandbox.Box, c CleanCase) *rp.Fail {
-	if err := b.Reset(); err != nil {
+	if err := b.ResetAs(c.ProjDir); err != nil {
 		return &rp.Fail{Sig: "harness", Msg: err.Error()}
 	}
 	src := c.source()
